@@ -12,7 +12,7 @@ RUN_DIR = os.path.join(BUILD, 'run')
 EVIDENCE_DIR = os.environ.get('VERIF_EVIDENCE_DIR') or os.path.join(ROOT, 'evidence' if 'VERIF_BUILD_DIR' not in os.environ else 'evidence-' + os.environ['VERIF_BUILD_DIR'].strip('.'))   # VERIF_EVIDENCE_DIR: development sweeps with other seeds must not overwrite the registered evidence
 # measured in this VM: page-fault bound, throughput saturates at ~8 plain / ~4 ASan processes (DESIGN.md section 11)
 NCPU = int(os.environ.get('VERIF_JOBS', '10'))
-JOBS = {'plain': NCPU, 'asan': int(os.environ.get('VERIF_JOBS_ASAN', '5'))}
+JOBS = {'plain': NCPU, 'fine': NCPU, 'mem': NCPU, 'asan': int(os.environ.get('VERIF_JOBS_ASAN', '5'))}
 SYMBOLIZER = '/usr/bin/llvm-symbolizer-14'
 
 # ------------------------------------------------------------------------------------------------
@@ -158,6 +158,32 @@ def _deadlock_site(blocked, variant):
         return None, None
     return 'deadlock:' + '+'.join(sorted(set(waits))), ' '.join(waits)
 
+def _livelock_site(blocked, variant):
+    """where the tasks of a decided livelock spin or wait: innermost library function of each task (set of functions = signature)"""
+    addrs = []; idx = []
+    for t, s in blocked:
+        for a in s.split(','):
+            addrs.append(a); idx.append(t)
+    try:
+        p = subprocess.run([SYMBOLIZER, '--obj=' + binary(variant), '--functions=linkage', '--no-inlines', '--relative-address'] + addrs, capture_output=True, text=True, timeout=120)
+    except Exception:
+        return None, None
+    out = [b for b in p.stdout.split('\n\n') if b.strip()]
+    if len(out) != len(addrs):
+        return None, None
+    per = {}
+    for t, b in zip(idx, out):
+        ls = b.strip().split('\n')
+        if len(ls) >= 2 and '/Source/' in ls[1]:
+            per.setdefault(t, []).append(ls[0])
+    fns = []
+    for t, fr in sorted(per.items()):
+        f = next((x for x in fr if x not in _WAIT_HELPERS and not x.startswith('svt_verif')), None)
+        if f: fns.append(re.sub(r'\.(isra|constprop|part|cold)\.\d+', '', f))
+    if not fns:
+        return None, None
+    return 'livelock:' + '+'.join(sorted(set(fns))), ' '.join(fns)
+
 def run_case(case, variant='plain', timeout=None, keep=False):
     """Execute one simulated world in a fresh process.  Returns a result dict with at least
     outcome (class), detail, site, failures (oracle failures), ubsan (list of sites)."""
@@ -214,6 +240,10 @@ def run_case(case, variant='plain', timeout=None, keep=False):
                 site, waits = _deadlock_site(res.pop('blocked'), variant)
                 if site:
                     res['site'] = site; res['detail'] = 'waits: %s | %s' % (waits, res.get('detail', ''))
+            if o == 'LIVELOCK' and res.get('blocked'):
+                site, waits = _livelock_site(res.pop('blocked'), variant)
+                if site:
+                    res['site'] = site; res['detail'] = 'spinning/waiting in: %s | %s' % (waits, res.get('detail', ''))
     ub = []
     for m in UBSAN_RE.finditer(err):
         path = m.group(1)
